@@ -81,7 +81,14 @@ def random_case(rng, nmax):
     if mv and n > 1:
         for _ in range(rng.randint(1, max(1, n // 4))):
             x[rng.randrange(n)][rng.randrange(dim)] = float("nan")
-    return {"x": x, "thr": thr, "mv": mv, "kind": kind,
+    # a scalar series with a delay embedding: the state dimension is that
+    # of the embedding, not of the series
+    embed = None
+    if dim == 1 and n >= 6 and rng.random() < 0.5:
+        embed = [rng.choice([2, 3]), rng.choice([1, 2])]
+        if n - (embed[0] - 1) * embed[1] < 2:
+            embed = None
+    return {"x": x, "thr": thr, "mv": mv, "kind": kind, "embed": embed,
             "lmin": rng.randint(1, 4), "vmin": rng.randint(1, 4),
             "wmin": rng.randint(1, 4)}
 
@@ -109,9 +116,12 @@ def run_impl(case):
     x = np.array(case["x"], dtype=float)
     out = {}
     for sparse in (False, True):
+        kw = {}
+        if case.get("embed"):
+            kw = {"dim": case["embed"][0], "tau": case["embed"][1]}
         rp = RecurrencePlot(x, threshold=case["thr"], metric="supremum",
                             silence_level=3, sparse_rqa=sparse,
-                            missing_values=case["mv"])
+                            missing_values=case["mv"], **kw)
         r = {"vert": rp.vertline_dist().tolist(),
              "diag": rp.diagline_dist().tolist()}
         lm, vm, wm = case["lmin"], case["vmin"], case["wmin"]
@@ -136,7 +146,7 @@ def run_impl(case):
             r["R"] = rp.recurrence_matrix().astype(int).tolist()
             r["E"] = np.asarray(rp.embedding, dtype=float).tolist()
             r["M"] = ([bool(b) for b in rp.missing_value_indices]
-                      if case["mv"] else [False] * len(x))
+                      if case["mv"] else [False] * len(rp.embedding))
             r["RR"] = float(rp.recurrence_rate())
         else:
             r["RR"] = float(rp.recurrence_rate())
@@ -268,7 +278,9 @@ def correspondence(ctx):
 
 
 def _strip(c):
-    return {k: c[k] for k in ("x", "thr", "mv", "lmin", "vmin", "wmin")}
+    d = {k: c[k] for k in ("x", "thr", "mv", "lmin", "vmin", "wmin")}
+    d["embed"] = c.get("embed")
+    return d
 
 
 # --------------------------------------------------------------------------
